@@ -20,7 +20,7 @@ import (
 )
 
 func init() {
-	addRound4("C01", "(O1) every goroutine start (go statement, time.AfterFunc) in the repository whose goroutine - the functions it runs synchronously - publishes a configuration (sends a text on a chan string of registry/consul that leaves the watcher - one its maker returns or keeps -, or calls route.SetTable) is executed at most once per watcher (it is in no loop, and neither are the calls that lead to its function), or publishes only on a channel made for this very start, or its starter waits for it (WaitGroup.Wait, a receive from a channel the goroutine sends on or closes) on every path before it goes on to the next round or returns: configurations then reach the table updater in the order in which their snapshots were observed, so the table installed last belongs to the state observed last and an instance seen unhealthy cannot come back with an older text.", runC01O1, c01SelectMutants(c01O1Mutants)...)
+	addRound4("C01", "(O1) every goroutine start (go statement, time.AfterFunc) in the repository whose goroutine - the functions it runs synchronously - publishes a configuration (sends a text on a chan string of registry/consul that leaves the watcher - one its maker returns or keeps -, or calls route.SetTable) is executed at most once per watcher (it is in no loop, and neither are the calls that lead to its function), or publishes only on a channel made for this very start, or its starter waits for it (WaitGroup.Wait, a receive from a channel the goroutine sends on or closes) on every path before it goes on to the next round or returns - when the start sits in a helper that runs once per call, every caller of the helper may do the waiting (the helper hands the channel back) -: configurations then reach the table updater in the order in which their snapshots were observed, so the table installed last belongs to the state observed last and an instance seen unhealthy cannot come back with an older text.", runC01O1, c01SelectMutants(c01O1Mutants)...)
 	addRound4("C01", "(S1) following every text sent on a chan string in registry/consul backwards (through helpers, closures, goroutines that hand results over channels, maps and struct literals) the walk does not reach memory that outlives the round (a field of the watcher, a package variable, a local or a map made outside the publishing loop) and is written during a round - unless the same function has overwritten it before on every path, or no Consul reply went into what the rounds write there (a lazily initialised setting), or the reuse is keyed completely: the remembered value is read as a map element or under an equality test against another remembered value, and every Consul query whose reply went into the remembered value also goes into the key / the compared fresh value. A text remembered under a key that lacks the catalog reply keeps routes of a prefix an instance no longer advertises.", runC01S1, c01SelectMutants(c01S1Mutants)...)
 }
 
@@ -85,8 +85,34 @@ func c01JoinsGoroutine(i ssa.Instruction, spawned []*ssa.Function) bool {
 // c01LeftAlone: after start site g the starter can reach the head of the loop around g (or leave the function)
 // without waiting for the goroutine.
 func c01LeftAlone(g ssa.Instruction, spawned []*ssa.Function) bool {
+	return c01LeftAloneFrom(g, spawned, 0)
+}
+
+// c01LeftAloneFrom: the same question after instruction g (the start site, or - depth > 0 - the call of the function
+// that contains it: a helper that starts the goroutine and hands the channel to wait on back to its caller).
+func c01LeftAloneFrom(g ssa.Instruction, spawned []*ssa.Function, depth int) bool {
 	join := liftMust(func(i ssa.Instruction) bool { return c01JoinsGoroutine(i, spawned) }, 1)
 	l := c01LoopAround(g)
+	// returning to the caller is not yet going on to the next round when the function runs once per round itself:
+	// then every caller must wait before it goes on
+	returns := func() bool {
+		if l != nil || depth >= 2 {
+			return true
+		}
+		sites := c01SitesOf(g.Parent())
+		if len(sites) == 0 {
+			return true
+		}
+		for _, s := range sites {
+			if _, isCall := s.(*ssa.Call); !isCall || s.Parent() == g.Parent() {
+				return true
+			}
+			if c01LeftAloneFrom(s, spawned, depth+1) {
+				return true
+			}
+		}
+		return false
+	}
 	type item struct {
 		b     *ssa.BasicBlock
 		start int
@@ -104,7 +130,11 @@ func c01LeftAlone(g ssa.Instruction, spawned []*ssa.Function) bool {
 				break
 			}
 			if _, isRet := in.(*ssa.Return); isRet {
-				return true
+				if returns() {
+					return true
+				}
+				blocked = true
+				break
 			}
 		}
 		if blocked {
@@ -481,6 +511,9 @@ func (s *c01S1) keyLeaves(h *c01Stale) (leaves map[*ssa.Call]bool, guarded bool)
 
 func c01CallLabel(c *Ctx, call *ssa.Call) string {
 	n := calleeName(&call.Call)
+	if m := c01APIMethod(&call.Call); m != "" {
+		n = m
+	}
 	n = strings.ReplaceAll(n, apiPkg+".", "")
 	return n + " (" + c.pos(call.Pos()) + ")"
 }
